@@ -163,9 +163,12 @@ properties/C09.vos properties/C09.vok properties/C09.required_vos: properties/C0
 proofs/CacheProofs.vo proofs/CacheProofs.glob proofs/CacheProofs.v.beautified proofs/CacheProofs.required_vo: proofs/CacheProofs.v gen/Params.vo model/Bytes.vo model/Cache.vo model/Check20.vo
 proofs/CacheProofs.vio: proofs/CacheProofs.v gen/Params.vio model/Bytes.vio model/Cache.vio model/Check20.vio
 proofs/CacheProofs.vos proofs/CacheProofs.vok proofs/CacheProofs.required_vos: proofs/CacheProofs.v gen/Params.vos model/Bytes.vos model/Cache.vos model/Check20.vos
-properties/C20.vo properties/C20.glob properties/C20.v.beautified properties/C20.required_vo: properties/C20.v gen/Params.vo model/Bytes.vo model/Cache.vo model/Check20.vo proofs/CacheProofs.vo
-properties/C20.vio: properties/C20.v gen/Params.vio model/Bytes.vio model/Cache.vio model/Check20.vio proofs/CacheProofs.vio
-properties/C20.vos properties/C20.vok properties/C20.required_vos: properties/C20.v gen/Params.vos model/Bytes.vos model/Cache.vos model/Check20.vos proofs/CacheProofs.vos
+proofs/CapsProofs.vo proofs/CapsProofs.glob proofs/CapsProofs.v.beautified proofs/CapsProofs.required_vo: proofs/CapsProofs.v gen/Params.vo model/Bytes.vo model/Crc32c.vo model/Sha1.vo model/Id.vo model/Node.vo model/BSearch.vo model/Closest.vo model/RTable.vo model/Lru.vo model/Tokens.vo model/Server.vo proofs/LruProofs.vo proofs/ServerProofs.vo
+proofs/CapsProofs.vio: proofs/CapsProofs.v gen/Params.vio model/Bytes.vio model/Crc32c.vio model/Sha1.vio model/Id.vio model/Node.vio model/BSearch.vio model/Closest.vio model/RTable.vio model/Lru.vio model/Tokens.vio model/Server.vio proofs/LruProofs.vio proofs/ServerProofs.vio
+proofs/CapsProofs.vos proofs/CapsProofs.vok proofs/CapsProofs.required_vos: proofs/CapsProofs.v gen/Params.vos model/Bytes.vos model/Crc32c.vos model/Sha1.vos model/Id.vos model/Node.vos model/BSearch.vos model/Closest.vos model/RTable.vos model/Lru.vos model/Tokens.vos model/Server.vos proofs/LruProofs.vos proofs/ServerProofs.vos
+properties/C20.vo properties/C20.glob properties/C20.v.beautified properties/C20.required_vo: properties/C20.v gen/Params.vo model/Bytes.vo model/Lru.vo model/Server.vo model/Cache.vo model/Check20.vo proofs/CacheProofs.vo proofs/ServerProofs.vo proofs/CapsProofs.vo
+properties/C20.vio: properties/C20.v gen/Params.vio model/Bytes.vio model/Lru.vio model/Server.vio model/Cache.vio model/Check20.vio proofs/CacheProofs.vio proofs/ServerProofs.vio proofs/CapsProofs.vio
+properties/C20.vos properties/C20.vok properties/C20.required_vos: properties/C20.v gen/Params.vos model/Bytes.vos model/Lru.vos model/Server.vos model/Cache.vos model/Check20.vos proofs/CacheProofs.vos proofs/ServerProofs.vos proofs/CapsProofs.vos
 properties/C06.vo properties/C06.glob properties/C06.v.beautified properties/C06.required_vo: properties/C06.v model/Bytes.vo model/Inflight.vo model/PutQuery.vo proofs/InflightProofs.vo proofs/PutQueryProofs.vo
 properties/C06.vio: properties/C06.v model/Bytes.vio model/Inflight.vio model/PutQuery.vio proofs/InflightProofs.vio proofs/PutQueryProofs.vio
 properties/C06.vos properties/C06.vok properties/C06.required_vos: properties/C06.v model/Bytes.vos model/Inflight.vos model/PutQuery.vos proofs/InflightProofs.vos proofs/PutQueryProofs.vos
